@@ -1,7 +1,7 @@
 (* Extract/C03_x.v — driver for the C03 model: the generic wrapper over the ten concrete inspectors.
    wrap <kind f|i|g> <expected S<name>|N> <allowed L,a,b|N> <order ,a,b,..> <data> <lens> <ops>
      the wrapper's inspector collection is put in <order> (the iteration order of the Python set in
-     the real run); ops: 0 next, 1 close, 9 read(-1), 10+n read(n); one record per op:
+     the real run); ops: 0 next, 1 close, 9 read(-1), 10+n read(n), 2 stop-at-first-exception mode; one record per op:
        B<len>.<cksum> | E<Class> | N   @ <source position> | <formats> | <format> | name:complete:match,... | <_finished>
      preceded by the record of the fresh wrapper (without the first two fields).
    detect <data>   ->  <result>@<position>|<closed>|<formats>|<format>|...                       *)
@@ -78,12 +78,18 @@ Definition do_op (w : cwrapper) (s : source) (op : N) : cwrapper * source * byte
     else (w, s, lit "BADOP")
   end.
 
-Fixpoint do_ops (w : cwrapper) (s : source) (ops : list N) : list bytes :=
+(* op 2 switches to a reader that STOPS at the first exception: after a call raised, read/next ops are skipped
+   (nothing is printed for them); close (op 1) is still performed *)
+Definition is_exn_out (o : bytes) : bool := match o with 69 :: _ => true | _ => false end.
+Fixpoint do_ops (stopping stopped : bool) (w : cwrapper) (s : source) (ops : list N) : list bytes :=
   match ops with
   | [] => []
   | op :: rest =>
-    let '(w', s', o) := do_op w s op in
-    (o ++ lit "@" ++ out_pos s' ++ lit "|" ++ out_state w') :: do_ops w' s' rest
+    if op =? 2 then do_ops true stopped w s rest
+    else if stopping && stopped && negb (op =? 1) then do_ops stopping stopped w s rest
+    else
+      let '(w', s', o) := do_op w s op in
+      (o ++ lit "@" ++ out_pos s' ++ lit "|" ++ out_state w') :: do_ops stopping (stopped || is_exn_out o) w' s' rest
   end.
 
 Definition run (args : list bytes) : bytes :=
@@ -103,7 +109,7 @@ Definition run (args : list bytes) : bytes :=
       let w := with_slots istate w0 ss in
       let s := if is_op "f" kind then SrcF {| f_data := data; f_pos := 0; f_closed := false |}
                else SrcI {| i_chunks := split_lens data lens; i_has_close := is_op "g" kind |} in
-      out_state w ++ lit ";" ++ join (lit ";") (do_ops w s ops)
+      out_state w ++ lit ";" ++ join (lit ";") (do_ops false false w s ops)
     | None => lit "BADSET"
     end
   else if is_op "detect" op then
